@@ -2,9 +2,9 @@
 package c11
 
 import (
-	"os"
 	"fmt"
 	"net/netip"
+	"os"
 	"sort"
 	"testing"
 	"time"
@@ -123,26 +123,23 @@ func genCase(rt *rapid.T) caseSpec {
 }
 
 type model struct {
-	// requests outstanding at the end of a pause: under the recorded finding
-	// c11-cancel-lost-when-queue-full their Cancel may never have been written
-	lostCancel map[key]bool
-	g           geom
-	localHas    map[int]bool
-	adv         map[int]bool
-	advAll      bool
-	unchoked    bool
-	fastSet     map[int]bool
-	outstanding map[key]uint32
-	commanded   map[uint32]int // chunks commanded by the torrent and not yet resolved (multiset)
-	reqq        int64
-	pexTold     map[netip.AddrPort]bool
-	trace       []string
-	dropped     []uint32 // blocks the peer gave back most recently
-	labels      map[string]bool
-	nreq        int
+	g             geom
+	localHas      map[int]bool
+	adv           map[int]bool
+	advAll        bool
+	unchoked      bool
+	fastSet       map[int]bool
+	outstanding   map[key]uint32
+	commanded     map[uint32]int // chunks commanded by the torrent and not yet resolved (multiset)
+	reqq          int64
+	pexTold       map[netip.AddrPort]bool
+	trace         []string
+	dropped       []uint32 // blocks the peer gave back most recently
+	labels        map[string]bool
+	nreq          int
 	exitAccounted bool
 	lastQueue     int
-	stale       bool // the messages being checked were written while the remote was not reading
+	stale         bool // the messages being checked were written while the remote was not reading
 }
 
 func (m *model) chunkOf(i, b uint32) uint32 { return uint32(int64(i)*m.g.cpp() + int64(b)/blk) }
@@ -175,16 +172,7 @@ func (m *model) onMsg(msg ref.Msg, ext map[string]uint8) string {
 		}
 		k := key{msg.Index, msg.Begin}
 		if _, dup := m.outstanding[k]; dup {
-			if m.lostCancel[k] && !strictCancel && (stats.Excl("c11-cancel-lost-when-queue-full") || os.Getenv("VERIF_PROPERTY") == "C09") {
-				// (C09 borrows this harness for its conservation invariant; the
-				// finding is C11's and is reported there)
-				// region of the recorded finding: counted, not failed
-				stats.Excluded("c11-cancel-lost-when-queue-full")
-				delete(m.lostCancel, k)
-				delete(m.outstanding, k)
-			} else {
-				return fmt.Sprintf("Request(%d,%d,%d) duplicated while outstanding", i, b, l)
-			}
+			return fmt.Sprintf("Request(%d,%d,%d) duplicated while outstanding", i, b, l)
 		}
 		c := m.chunkOf(msg.Index, msg.Begin)
 		if m.commanded[c] <= 0 && !m.stale {
@@ -743,14 +731,6 @@ func run(c caseSpec) (fail string, m *model, hist []string) {
 			// what arrives now was written at unknown times during the pause; the
 			// scheduler may have withdrawn those blocks since
 			m.stale = paused
-			if paused {
-				if m.lostCancel == nil {
-					m.lostCancel = map[key]bool{}
-				}
-				for k := range m.outstanding {
-					m.lostCancel[k] = true
-				}
-			}
 			paused = false
 		}
 		if f := process(); f != "" {
@@ -888,7 +868,7 @@ func TestReg_c11_offset_above_4g(t *testing.T) {
 	n := int((int64(4)<<30)/ps) + 10
 	// chunk 262144 = piece 87381, block 1
 	fixed(t, caseSpec{g: geom{ps: ps, length: ps * int64(n), n: n}, local: "none", caps: sim.Caps{Fast: true, Extended: true}, reqq: -1,
-		ext: map[string]uint8{"ut_pex": 1, "lt_donthave": 2, "ut_metadata": 3},
+		ext:   map[string]uint8{"ut_pex": 1, "lt_donthave": 2, "ut_metadata": 3},
 		steps: []step{{Kind: "r.haveall"}, {Kind: "r.unchoke"}, {Kind: "t.request", L: []int{-262144, -262145}}, {Kind: "sleep", D: time.Second}}})
 }
 
@@ -947,23 +927,17 @@ func TestC11CancelCongested(t *testing.T) {
 	stats.Case("cancel-congested", true, "cancel-over-congested-connection")
 }
 
-// Recorded finding c11-cancel-lost-when-queue-full: with the outgoing queue
-// full to the brim (64 messages) the Cancel cannot be written (write gives up
-// after 200 ms, the error is ignored), the request is nevertheless marked
-// cancelled, forgotten a few seconds later, and asked for again: the remote
-// sees the same Request twice with nothing in between.
+// Regression for c11-cancel-lost-when-queue-full (fixed): with the outgoing
+// queue full to the brim (64 messages) the Cancel cannot be written (write
+// gives up after 200 ms); the error used to be ignored, the request was
+// nevertheless marked cancelled, forgotten a few seconds later and asked for
+// again: the remote saw the same Request twice with nothing in between.  The
+// connection is now closed instead.
 func TestReg_c11_cancel_lost_when_queue_full(t *testing.T) {
 	cancelCongested(t, 5, 6)
 }
 
-// strictCancel: the fixed scenarios know how full the queue is; the tolerance
-// that keeps the generative search out of the recorded finding's region does
-// not apply to them
-var strictCancel bool
-
 func cancelCongested(t *testing.T, from, to int) {
-	strictCancel = true
-	defer func() { strictCancel = false }()
 	for variant := from; variant < to; variant++ {
 		steps := []step{{Kind: "r.haveall"}, {Kind: "r.unchoke"}, {Kind: "t.request", L: []int{0, 4}}, {Kind: "sleep", D: time.Second},
 			// (one message makes the writer flush and block on the connection; what
